@@ -514,9 +514,11 @@ struct channel_multiplier_unsigned {
     using result_type = ChannelValue;
     auto operator()(ChannelValue a, ChannelValue b) const -> ChannelValue
     {
-        // multiply first: a * b is exact in double for channels of up to 26 bits, which makes the
-        // result the exact truncated quotient and the operation commutative
-        return ChannelValue(static_cast<typename base_channel_type<ChannelValue>::type>(double(a) * double(b) / double(channel_traits<ChannelValue>::max_value())));
+        // scale the larger operand: the expression is then symmetric in a and b (commutative) and,
+        // because max / max is exactly 1, the maximum is the identity for channels of any width
+        double const hi = a < b ? double(b) : double(a);
+        double const lo = a < b ? double(a) : double(b);
+        return ChannelValue(static_cast<typename base_channel_type<ChannelValue>::type>(hi / double(channel_traits<ChannelValue>::max_value()) * lo));
     }
 };
 
